@@ -285,7 +285,7 @@ def main(argv=None):
         os.makedirs(d, exist_ok=True)
         procs = []
         for k in range(nshards):
-            out = os.path.join(d, f"{prop}.{a.tier}.{k}.json")
+            out = os.path.join(d, f"{prop}.{a.tier}.{os.getpid()}.{k}.json")
             if os.path.exists(out):
                 os.remove(out)
             cmd = [sys.executable, "-X", "faulthandler", "-m", "rv.run", prop, "--tier", a.tier, "--shard", f"{k}/{nshards}", "--out", out]
